@@ -333,6 +333,9 @@ func (fr *Frame) applyContract(fc *FuncContract, site ssa.Instruction, obj *type
 	for _, c := range fc.Ensures {
 		vc.assume(st.guard, mk(st).evalBool(c.Expr, c))
 	}
+	for _, c := range fc.Defines_ {
+		vc.assume(st.guard, mk(st).evalBool(c.Expr, c))
+	}
 	return out
 }
 
